@@ -9,6 +9,8 @@ kinds:  hole   n only changes a number written in the file            magnitudes
         grow   n is a nesting depth / item count: file size ~ n       1, 10, 100, 1000 (quick) .. 10^4, 10^5
         exp    n = expansion factor 10^k of an entity bomb            10^1 .. 10^6 (quick) .. 10^9
         one    no hole (cycles, external entities)                    1
+        .doc picture templates (kind hole, own lattice DOC_PIC_MAGS): n = number of picture headers inside one declared picture
+        extent of a DOC_STREAM-byte stream; 1, 10, 100, 1000 (quick) .. 6000 (thorough); the file size does not depend on n
 """
 from __future__ import annotations
 
@@ -1182,6 +1184,175 @@ def _(n):
 def _(n):
     blip = b"\0" * 16 + b"\xff" + png(n, n)
     return _ppt(pictures=struct.pack("<HHI", 0x6E00, 0xF01E, len(blip)) + blip)
+
+
+# ------------------------------------------------------------------------------------------------ OLE2 host: DOC
+# There is no reference writer for the Word binary format; what the reader needs is little, and is written here from [MS-DOC]:
+# a compound file with a WordDocument stream = FIB (wIdent 0xA5EC at 0, ccpText / ccpFtn / ccpHdd / ccpAtn at 0x4C / 0x50 /
+# 0x54 / 0x5C; everything else zero: not encrypted, table stream "0Table"), the main text as cp1252 at 0x200, and a body of
+# DOC_STREAM bytes from 0x1000 on that stands for the picture / formatting area ("filler": bytes 0x80..0xBF in rotation - no
+# NUL, no 0x28, no PNG signature, 64 distinct values).  The picture amplifiers write n picture HEADERS into that body so that one
+# declared picture extent contains all the others; the file size does not depend on n (n <= DOC_HEADERS_MAX headers fit).
+DOC_STREAM = 256 * 1024
+DOC_BODY = 0x1000
+DOC_TEXT = "Bbcdfg lorem ipsum dolor sit amet, consectetur adipiscing elit, sed do eiusmod tempor.\rCbcdfg incididunt ut labore et dolore magna aliqua.\r"
+DOC_FIB_CCP = {"text": 0x4C, "ftn": 0x50, "hdd": 0x54, "atn": 0x5C}
+PNG_SIG = b"\x89PNG\r\n\x1a\n"
+
+
+def doc_filler(n):
+    unit = bytes(range(0x80, 0xC0))
+    return (unit * (n // 64 + 1))[:n]
+
+
+def doc_stream(length=DOC_STREAM, regions=(), ccp=None):
+    """WordDocument stream of `length` bytes; regions: [(offset, bytes)] written over the filler; ccp: {field: count} forges a
+    character count of the FIB (default: ccpText = length of the text, the others 0)"""
+    text = _sub(DOC_TEXT).encode("cp1252")
+    wd = bytearray(doc_filler(length))
+    wd[0:DOC_BODY] = bytes(DOC_BODY)
+    struct.pack_into("<H", wd, 0, 0xA5EC)
+    struct.pack_into("<H", wd, 2, 0x00C1)                    # nFib: Word 97
+    struct.pack_into("<I", wd, DOC_FIB_CCP["text"], len(text))
+    for k, v in (ccp or {}).items():
+        struct.pack_into("<I", wd, DOC_FIB_CCP[k], v & 0xFFFFFFFF)
+    wd[0x200:0x200 + len(text)] = text
+    for off, raw in regions:
+        assert DOC_BODY <= off and off + len(raw) <= length, (off, len(raw), length)
+        wd[off:off + len(raw)] = raw
+    return bytes(wd)
+
+
+def _doc(wd=None, table=None, summary=None):
+    from verif.gen import cfb as C
+    streams = {"WordDocument": doc_stream() if wd is None else wd, "0Table": doc_filler(4096) if table is None else table}
+    if summary is not None:
+        streams["\x05SummaryInformation"] = summary
+    return "t.doc", C.cfb(streams, {})
+
+
+def dib_header(w, h, bpp=24, size_image=0, compression=0):
+    """BITMAPINFOHEADER (40 bytes)"""
+    return struct.pack("<IiiHHIIiiII", 40, w, h, 1, bpp, compression, size_image & 0xFFFFFFFF, 2835, 2835, 0, 0)
+
+
+def _dib_w(k):
+    return 100 + k % 9000          # never 40: a width of 40 would read as one more header start
+
+
+DOC_HEADERS_MAX = 6000                       # 6000 * 40 bytes = 240000 < DOC_STREAM - DOC_BODY
+DOC_PIC_MAGS = ([1, 10, 100, 1000], [1, 10, 100, 1000, DOC_HEADERS_MAX])
+
+
+def _doc_dibs(n, stride, declare):
+    """n DIB headers, `stride` bytes apart, from DOC_BODY on; declare(k, at) -> (w, h, bpp, size_image)"""
+    assert 1 <= n <= DOC_HEADERS_MAX and DOC_BODY + n * stride <= DOC_STREAM
+    regions = []
+    for k in range(n):
+        at = DOC_BODY + k * stride
+        regions.append((at, dib_header(*declare(k, at))))
+    return _doc(wd=doc_stream(regions=regions))
+
+
+@template("doc-dib-packed", "hole", f"DOC: WordDocument stream of {DOC_STREAM} bytes holding n BITMAPINFOHEADERs (24 bpp) back to back, every one "
+                                    f"declaring pixel data (biSizeImage) up to the end of the stream: the first picture contains all the others",
+          mags=DOC_PIC_MAGS)
+def _(n):
+    return _doc_dibs(n, 40, lambda k, at: (_dib_w(k), 480, 24, DOC_STREAM - at - 40))
+
+
+@template("doc-dib-packed-dims", "hole", f"DOC: WordDocument stream of {DOC_STREAM} bytes holding n BITMAPINFOHEADERs back to back with biSizeImage = 0; "
+                                         f"the declared width x height (24 bpp, 300-byte rows) reaches the end of the stream: the first contains all the others",
+          mags=DOC_PIC_MAGS)
+def _(n):
+    return _doc_dibs(n, 40, lambda k, at: (100, (DOC_STREAM - at - 40) // 300, 24, 0))
+
+
+@template("doc-dib-packed-palette", "hole", f"DOC: WordDocument stream of {DOC_STREAM} bytes holding n BITMAPINFOHEADERs (1 bpp: 8-byte colour table) back to "
+                                            f"back, biSizeImage up to the end of the stream",
+          mags=DOC_PIC_MAGS)
+def _(n):
+    return _doc_dibs(n, 40, lambda k, at: (_dib_w(k), 480, 1, DOC_STREAM - at - 48))
+
+
+@template("doc-dib-spread", "hole", f"DOC: WordDocument stream of {DOC_STREAM} bytes holding n BITMAPINFOHEADERs (24 bpp) spread evenly over the first half "
+                                    f"of the picture area, every one declaring pixel data up to the end of the stream (nested pictures)",
+          mags=DOC_PIC_MAGS)
+def _(n):
+    stride = max(40, ((DOC_STREAM - DOC_BODY) // 2 // n) & ~3)
+    return _doc_dibs(n, stride, lambda k, at: (_dib_w(k), 480, 24, DOC_STREAM - at - 40))
+
+
+@template("doc-dib-overshoot", "hole", f"DOC: WordDocument stream of {DOC_STREAM} bytes holding n BITMAPINFOHEADERs back to back, every one declaring pixel "
+                                       f"data that ends one byte behind the end of the stream (no complete picture)",
+          mags=DOC_PIC_MAGS)
+def _(n):
+    return _doc_dibs(n, 40, lambda k, at: (_dib_w(k), 480, 24, DOC_STREAM - at - 40 + 1))
+
+
+def _png_chunk(typ, data):
+    return struct.pack(">I", len(data)) + typ + data + struct.pack(">I", zlib.crc32(typ + data))
+
+
+def _png_nest(n, length, base, iend=True):
+    """n PNG signatures, each followed by the 8-byte header of ONE chunk whose declared length reaches up to the single IEND chunk
+    at the end of the area: the chunk of the first signature contains all the other signatures.  -> regions for a stream of
+    `length` bytes whose picture area starts at `base`"""
+    assert base + 16 * n + 4 + 12 <= length
+    tail_at = length - 12                                # the shared IEND chunk (or, without it, 12 filler bytes)
+    regions = []
+    for k in range(n):
+        at = base + 16 * k
+        data_at = at + 16
+        regions.append((at, PNG_SIG + struct.pack(">I", tail_at - 4 - data_at) + (b"IHDR" if k == 0 else b"tEXt")))
+    if iend:
+        regions.append((tail_at, _png_chunk(b"IEND", b"")))
+    return regions
+
+
+@template("doc-png-nested", "hole", f"DOC: WordDocument stream of {DOC_STREAM} bytes holding n PNG signatures 16 bytes apart, each followed by one chunk "
+                                    f"header whose length reaches up to the one IEND chunk at the end of the stream: the first PNG contains all the others",
+          mags=DOC_PIC_MAGS)
+def _(n):
+    return _doc(wd=doc_stream(regions=_png_nest(n, DOC_STREAM, DOC_BODY)))
+
+
+@template("doc-png-nested-table", "hole", f"DOC: table stream of {DOC_STREAM} bytes holding n PNG signatures 16 bytes apart, each followed by one chunk header "
+                                          f"whose length reaches up to the one IEND chunk at the end of the stream",
+          mags=DOC_PIC_MAGS)
+def _(n):
+    tb = bytearray(doc_filler(DOC_STREAM))
+    for off, raw in _png_nest(n, DOC_STREAM, 0x40):
+        tb[off:off + len(raw)] = raw
+    return _doc(wd=doc_stream(length=2 * DOC_BODY), table=bytes(tb))
+
+
+@template("doc-png-nested-noend", "hole", f"DOC: WordDocument stream of {DOC_STREAM} bytes holding n PNG signatures 16 bytes apart, each followed by one chunk "
+                                          f"header whose length reaches up to 12 bytes before the end of the stream; no IEND chunk (no complete picture)",
+          mags=DOC_PIC_MAGS)
+def _(n):
+    return _doc(wd=doc_stream(regions=_png_nest(n, DOC_STREAM, DOC_BODY, iend=False)))
+
+
+def _mk_doc_ccp_templates():
+    for fld, what in (("text", "main text"), ("ftn", "footnote text"), ("hdd", "header / footer text"), ("atn", "annotation text")):
+        def b(n, fld=fld):
+            return _doc(wd=doc_stream(length=2 * DOC_BODY, ccp={fld: n}))
+        template(f"doc-ccp-{fld}", "hole", f"DOC: FIB declares n characters of {what} (ccp{fld.capitalize()}); WordDocument stream of {2 * DOC_BODY} bytes",
+                 )(b)
+
+
+_mk_doc_ccp_templates()
+
+
+def _mk_doc_ole_templates():
+    for kind, (doc, mk) in OLE_FORGERIES.items():
+        def b(n, mk=mk):
+            return _doc(wd=doc_stream(length=2 * DOC_BODY), summary=mk(n))
+        template(f"doc-ole-{kind}", "hole", f"DOC: \\x05SummaryInformation - {doc}")(b)
+
+
+_mk_doc_ole_templates()
 
 
 # ------------------------------------------------------------------------------------------------ archives
